@@ -311,7 +311,7 @@ func Drive(o DriveOpts) int {
 		}
 		// a violation the known-findings file does not list
 		v := bySig[s][0]
-		path := writeReplay(o, p, v)
+		path := writeReplay(o, p, v, len(newViol) < 2)
 		ok := verifyReplay(o, path, s)
 		if !ok {
 			a.infra = append(a.infra, fmt.Sprintf("replay of %s did not reproduce signature %q", path, s))
@@ -434,7 +434,7 @@ type ReplayFile struct {
 	Minimised bool            `json:"minimised"`
 }
 
-func writeReplay(o DriveOpts, p Property, v RunOut) string {
+func writeReplay(o DriveOpts, p Property, v RunOut, minimise bool) string {
 	os.MkdirAll(o.ReplayDir, 0o755)
 	rf := ReplayFile{Property: o.Prop, Seed: o.Seed, RunIndex: v.Index, RunSeed: v.Seed, Tier: o.Tier,
 		Class: v.Violation.Class, Signature: v.Violation.Signature, Detail: v.Violation.Detail,
@@ -443,6 +443,9 @@ func writeReplay(o DriveOpts, p Property, v RunOut) string {
 	// minimise in a child process (a failing world is not reusable)
 	raw, _ := json.MarshalIndent(rf, "", " ")
 	os.WriteFile(path, raw, 0o644)
+	if !minimise {
+		return path
+	}
 	cmd := exec.Command(o.Self, "minimise", "-file", path)
 	cmd.Env = append(os.Environ(), "VERIF_WORLD_DIR="+filepath.Join(o.Scratch, "world-min"))
 	cmd.Stderr = os.Stderr
@@ -529,7 +532,7 @@ func Minimise(path, self string) int {
 	if err != nil {
 		return 2
 	}
-	deadline := time.Now().Add(90 * time.Second)
+	deadline := time.Now().Add(45 * time.Second)
 	improved := true
 	rounds := 0
 	for improved && time.Now().Before(deadline) {
